@@ -341,6 +341,31 @@ def run(tier, seed):
       generic(cur, cname)
       if k == 'noisy':
         break      # relations against a stochastic inner experimenter cannot be checked point by point
+  # multi-objective base experimenters with MANY objectives (names f0 .. f11 sort differently as strings): the i-th metric of the
+  # problem statement must carry the i-th component of the objective function
+  for nobj in ([12] if quick else [3, 11, 12, 25]):
+    try:
+      pm = vz.ProblemStatement()
+      for i in range(3):
+        pm.search_space.root.add_float_param('x%d' % i, 0.0, 1.0)
+      for j in range(nobj):
+        pm.metric_information.append(vz.MetricInformation(name='f%d' % j, goal=vz.ObjectiveMetricGoal.MINIMIZE))
+      impl = lambda x, nobj=nobj: [float(np.sum(x)) + 10.0 * j for j in range(nobj)]
+      exm = nu.MultiObjectiveNumpyExperimenter(impl, pm)
+      rep.case({'wrapper': 'multi-objective-many', 'objectives': nobj}, True)
+      rep.count('multiobjective_%d' % nobj)
+      for p in sample(pm, 3):
+        a = mvals(evalv(exm, p))
+        want = {('f%d' % j): sum(p.values()) + 10.0 * j for j in range(nobj)}
+        if a is None or any(abs(a.get(k, float('nan')) - v) > 1e-9 for k, v in want.items()):
+          bad = [k for k, v in want.items() if a is None or not abs(a.get(k, float('nan')) - v) <= 1e-9][:3]
+          viol('MultiObjectiveNumpyExperimenter: a metric does not carry the objective component of its position in the problem statement',
+               {'objectives': nobj, 'point': p, 'wrong_metrics': bad, 'got': {k: (a or {}).get(k) for k in bad}, 'expected': {k: want[k] for k in bad}})
+          break
+    except Exception as e:  # pylint: disable=broad-except
+      import traceback
+      viol('MultiObjectiveNumpyExperimenter with %d objectives raised %s' % (nobj, type(e).__name__), {'error': traceback.format_exc()[-400:]})
+
   # every noise type, long enough for the rare (5%) heavy-tailed draws to fire: two wrappers with the same seed must agree
   # whatever the state of numpy's global generator is
   for nt in ['NO_NOISE', 'MODERATE_GAUSSIAN', 'SEVERE_GAUSSIAN', 'MODERATE_UNIFORM', 'SEVERE_UNIFORM', 'MODERATE_SELDOM_CAUCHY', 'SEVERE_SELDOM_CAUCHY']:
